@@ -68,3 +68,29 @@ fn shim_opt_os_to_str<'a>(a: Option<&'a OsStr>) -> (r: Option<&'a str>)
         Some(o) => if valid_utf8(osb(o)) { r is Some && r->Some_0.spec_bytes() == osb(o) } else { r is None },
         None => r is None })
 { a.and_then(OsStr::to_str) }
+// ---------------- Path / PathBuf (opaque, byte view) ----------------
+#[verifier::external_type_specification]
+#[verifier::external_body]
+pub struct ExPathBuf(std::path::PathBuf);
+#[verifier::external_type_specification]
+#[verifier::external_body]
+pub struct ExPath(std::path::Path);
+pub uninterp spec fn pbb(p: &std::path::PathBuf) -> Seq<u8>;
+pub uninterp spec fn pab(p: &std::path::Path) -> Seq<u8>;
+pub assume_specification [std::path::PathBuf::new] () -> (r: std::path::PathBuf)
+    ensures pbb(&r) == Seq::<u8>::empty();
+pub assume_specification [std::path::PathBuf::as_path] (p: &std::path::PathBuf) -> (r: &std::path::Path)
+    ensures pab(r) == pbb(p);
+pub assume_specification [std::path::Path::to_path_buf] (p: &std::path::Path) -> (r: std::path::PathBuf)
+    ensures pbb(&r) == pab(p);
+// shim D6.path_push_osstr: pushing onto an EMPTY PathBuf makes it exactly the pushed path
+#[verifier::external_body]
+fn shim_pathbuf_push_bytes(p: &mut std::path::PathBuf, b: &[u8])
+    requires pbb(old(p)).len() == 0
+    ensures pbb(final(p)) == b@
+{ p.push(OsStr::from_bytes(b)) }
+// shim D6.osstring_from_vec_line
+#[verifier::external_body]
+fn shim_osstring_from_slice(b: &[u8]) -> (r: OsString)
+    ensures osbs(&r) == b@
+{ OsString::from_vec(b.to_vec()) }
